@@ -4,7 +4,10 @@
    (Model/C02.v), (c) the extracted textbook DES / crypt(3) specification (Model/C02_DesSpec.v), (d) libcrypt (called
    through ctypes with raw bytes) and, as a second route to an oracle, perl's crypt(). A Python transcription of
    fcrypt (tables parsed from the regenerated Gen/CryptTab.v) is run as an instrumented twin on a subset of those
-   cases to measure which SPtrans / skb / con_salt / cov_2char entries were indexed."""
+   cases to measure which SPtrans / skb / con_salt / cov_2char entries were indexed.
+   Results that alias shared state / reentrancy (sessions(), driver ops 5 and 6 in c02_session.go): sessions of calls in
+   one process whose returned slices are kept uncopied, handed back in as the stored hash and read after the last call,
+   and the same calls from concurrent goroutines; model counterpart C02_calls_independent / C02_order_independent."""
 import ctypes, ctypes.util, os, re, subprocess, sys
 from concurrent.futures import ThreadPoolExecutor
 sys.path.insert(0, os.path.join(os.path.dirname(os.path.abspath(__file__)), "..", "lib"))
@@ -213,6 +216,389 @@ def coq_eval_cases(lines):
     if not m:
         return None
     return [" ".join(str(x) for x in row) for row in eval(m.group(1).replace(";", ","))]
+
+
+# ---------------------------------------------------------------------------------------------- sessions (ops 5, 6)
+def eff_len(pw):
+    return len(cstr(bytes(pw[:8])))
+
+
+def sessions(c, rng, impl, model, thorough):
+    """Results that alias shared state / reentrancy. Every other part of this check makes one call per case and the
+    driver copies the answer at once; here the driver makes SEVERAL calls in one process, keeps the returned slices
+    uncopied, hands such a slice back in as the stored hash, and reads everything only after the last call (op 5);
+    and makes the calls from concurrent goroutines, comparing every answer with the sequential one (op 6).
+    Direct predicates (no model involved): each kept slice holds crypt(3) (libcrypt) of ITS OWN password and salt;
+    the answers of a session are the answers the same calls give when made alone (fresh op 1 / op 3 cases);
+    a kept hash accepts its password and rejects one differing in the low 7 bits of the first 8 bytes; no call
+    writes into an argument slice; every concurrent answer is the sequential answer."""
+    K = 20 if thorough else 1
+
+    def rnd_pw(n, pool=None):
+        return [rng.choice(pool) if pool else rng.randrange(256) for _ in range(n)]
+
+    def some_pw(allow_empty=False):
+        r = rng.random()
+        if allow_empty and r < 0.06:
+            return rng.choice([[], [0], [0, 65]])
+        if r < 0.4:
+            return rnd_pw(rng.randrange(1, 13), ALPHA)
+        pw = rnd_pw(rng.randrange(1, 15), list(range(1, 256)))
+        if r > 0.9 and len(pw) > 2:
+            pw[rng.randrange(1, len(pw))] = 0
+        return pw
+
+    def some_salt():
+        r = rng.random()
+        if r < 0.7:
+            return [rng.choice(ALPHA), rng.choice(ALPHA)]
+        if r < 0.8:
+            return [rng.choice(ALPHA), rng.choice(ALPHA)] + rnd_pw(rng.randrange(1, 13), ALPHA)   # a whole stored hash as salt
+        return [rng.randrange(128), rng.randrange(128)]                                            # as GenPasswd draws them
+
+    def wrong_of(pw):
+        """a password that differs from pw in the low 7 bits of the first 8 bytes of the C string"""
+        e = eff_len(pw)
+        if e == 0:
+            return [rng.randrange(1, 128)] + rnd_pw(rng.randrange(0, 4))
+        q = list(pw)
+        q[rng.randrange(e)] ^= 1 << rng.randrange(7)
+        return q
+
+    def right_of(pw):
+        """pw or a password with the same crypt(3) key"""
+        r = rng.random()
+        if r < 0.6:
+            return list(pw)
+        if r < 0.8:
+            return [b ^ 0x80 if (b & 0x7f) and rng.random() < 0.5 else b for b in pw]
+        if eff_len(pw) == 8:
+            return pw[:8] + rnd_pw(rng.randrange(1, 5))
+        return list(pw)
+
+    # ---------------------------------------------------------------- op 5: sessions
+    # a call: dict(kind, a, b, want) — want: ("hash1", pw, salt) | ("gen", pw) | ("verdict", 0/1, ref or None, stored or None, pw)
+    def hash_call():
+        if rng.random() < 0.65:
+            pw, s = some_pw(allow_empty=True), some_salt()
+            return {"kind": 1, "a": pw, "b": s, "pw": pw}
+        pw = some_pw(allow_empty=True)
+        return {"kind": 2, "a": pw, "b": [], "pw": pw}
+
+    def kept_check(calls, j, right):
+        h = calls[j]
+        empty_gen = h["kind"] == 2 and (len(h["pw"]) == 0 or h["pw"][0] == 0)
+        pw = right_of(h["pw"]) if right else wrong_of(h["pw"])
+        return {"kind": 4, "a": [j], "b": pw, "ref": j, "verdict": 1 if right and not empty_gen else 0}
+
+    def literal_check(right):
+        while True:
+            pw, s = some_pw(), [rng.choice(ALPHA), rng.choice(ALPHA)]
+            st = libcrypt(pw, s)
+            if st is not None or _lib is None:
+                break
+        if st is None:
+            return None
+        q = right_of(pw) if right else wrong_of(pw)
+        return {"kind": 3, "a": list(st) + [0], "b": q, "verdict": 1 if right else 0}
+
+    sess = []            # (pattern, calls)
+    def add(pattern, calls):
+        sess.append((pattern, [x for x in calls if x is not None]))
+
+    for _ in range(60 * K):                                   # hashes only, read at the end
+        add("hashes-kept", [hash_call() for _ in range(rng.randrange(2, 5))])
+    for _ in range(60 * K):                                   # hash, then that very slice as the stored hash, wrong password
+        cs = [hash_call()]
+        cs.append(kept_check(cs, 0, False))
+        add("kept-hash-wrong-password", cs)
+    for _ in range(60 * K):                                   # hash, right then wrong (and the other way round)
+        cs = [hash_call()]
+        order = [True, False] if rng.random() < 0.5 else [False, True]
+        cs += [kept_check(cs, 0, r) for r in order]
+        add("kept-hash-right-and-wrong", cs)
+    for _ in range(60 * K):                                   # register two users, then log both in
+        cs = [hash_call(), hash_call()]
+        for j, r in rng.sample([(0, True), (1, True), (0, False), (1, False)], rng.randrange(2, 5)):
+            cs.append(kept_check(cs, j, r))
+        add("two-hashes-then-checks", cs)
+    for _ in range(60 * K):                                   # a check against somebody else's stored hash between a hash and its use
+        cs = [hash_call(), literal_check(rng.random() < 0.5)]
+        cs.append(kept_check(cs, 0, rng.random() < 0.5))
+        if rng.random() < 0.5:
+            cs.append(hash_call())
+        add("hash-foreign-check-use", cs)
+    for _ in range(100 * K):                                  # anything, references pointing backwards
+        cs = []
+        for i in range(rng.randrange(2, 7)):
+            hs = [j for j, x in enumerate(cs) if x["kind"] in (1, 2)]
+            r = rng.random()
+            if r < 0.4 or not hs:
+                cs.append(hash_call())
+            elif r < 0.85:
+                cs.append(kept_check(cs, rng.choice(hs), rng.random() < 0.5))
+            else:
+                x = literal_check(rng.random() < 0.5)
+                if x is not None:
+                    cs.append(x)
+        add("mixed", cs)
+    for _ in range(40 * K):                                   # related calls: state left by an earlier call (a cache keyed on too little)
+        pw, pw2, s1, s2 = some_pw(), some_pw(), some_salt(), some_salt()
+        same8 = (pw + rnd_pw(8, list(range(1, 256))))[:8]
+        cs = rng.choice([
+            [(pw, s1), (pw, s2), (pw2, s1), (pw, s1)],                               # same password / same salt / the first call again
+            [(same8 + [65], s1), (same8 + [66], s1), (wrong_of(same8), s1)],         # same key, then one bit away
+            [(pw, s1), (wrong_of(pw), s1), (pw, s1[:2])],
+            [(pw, s1), (pw, [s1[0], s2[1]]), (pw, [s2[0], s1[1]])]])
+        cs = [{"kind": 1, "a": list(a), "b": list(b), "pw": list(a)} for a, b in cs]
+        cs.append(kept_check(cs, rng.randrange(len(cs)), rng.random() < 0.5))
+        add("related-calls", cs)
+    # the vectors of the repository's own tests, as a fixed session
+    add("directed", [{"kind": 1, "a": list(b"123123"), "b": list(b"bh"), "pw": list(b"123123")},
+                     {"kind": 1, "a": list(b"012345678901"), "b": list(b"AA"), "pw": list(b"012345678901")},
+                     {"kind": 1, "a": list(b"00000000"), "b": list(b"00"), "pw": list(b"00000000")},
+                     {"kind": 4, "a": [0], "b": list(b"123123"), "ref": 0, "verdict": 1},
+                     {"kind": 4, "a": [0], "b": list(b"not-the-passwd"), "ref": 0, "verdict": 0},
+                     {"kind": 4, "a": [2], "b": list(b"00000000"), "ref": 2, "verdict": 1}])
+
+    def sess_line(calls, salts=None):
+        parts = []
+        for i, x in enumerate(calls):
+            b = x["b"]
+            if x["kind"] == 2 and salts is not None:
+                b = salts[i]
+            parts.append("%d|%s|%s" % (x["kind"], toks(x["a"]), toks(b)))
+        return "5|" + "|".join(parts)
+
+    def split_out(line):
+        """status-0 session/concurrent answer -> the numbers after the status, or None"""
+        t = line.split()
+        if not t or t[0] != "0":
+            return None
+        v = [int(x) for x in t[1:]]
+        return v
+
+    l5 = [sess_line(cs) for _, cs in sess]
+    o5 = vf.run_impl(impl, "C02", l5)
+    for pat, cs in sess:
+        c.count(1, "session " + pat)
+        c.count(len(cs), "calls inside sessions")
+    names = {1: "Fcrypt", 2: "GenPasswd", 3: "CheckPasswd", 4: "CheckPasswd(kept)"}
+    parsed = []                             # per session: [(payload, argument-written flag)] or None
+    for (pat, cs), line, o in zip(sess, l5, o5):
+        v = split_out(o)
+        per = None
+        if v is None:
+            c.violation("session-crash", "a session of %d calls (%s) does not return: status %s" % (len(cs), pat, o), {"cases": [line], "got": o})
+        else:
+            pos, per = 0, []
+            for x in cs:
+                if pos >= len(v) or pos + v[pos] + 2 > len(v):
+                    per = None
+                    break
+                n = v[pos]
+                per.append((v[pos + 1:pos + 1 + n], v[pos + 1 + n]))
+                pos += n + 2
+            if per is None or pos != len(v):
+                per = None
+                c.violation("session-shape", "session answer is not one record per call: %s" % o, {"cases": [line], "got": o})
+        parsed.append(per)
+    l5m = []                                # for the model: the salts GenPasswd drew, read back from its hashes
+    for (pat, cs), per in zip(sess, parsed):
+        l5m.append(sess_line(cs, {i: (per[i][0][:2] if per and len(per[i][0]) >= 2 else [0, 0]) for i, x in enumerate(cs) if x["kind"] == 2}))
+    # what every call must have answered: libcrypt of ITS OWN password and salt / the verdict
+    wants, exp_lines = [], []
+    alone_lines, alone_meta = [], []        # the same calls made alone (fresh cases, answer copied at once)
+    for si, ((pat, cs), per) in enumerate(zip(sess, parsed)):
+        w, known = [], True
+        for i, x in enumerate(cs):
+            if x["kind"] in (1, 2):
+                pw = x["pw"]
+                if x["kind"] == 2 and (len(pw) == 0 or pw[0] == 0):
+                    w.append(([0] * 14, None))
+                else:
+                    salt = x["b"][:2] if x["kind"] == 1 else (per[i][0][:2] if per else [])
+                    lc = libcrypt(pw, salt) if len(salt) == 2 and salt[0] in ALPHA and salt[1] in ALPHA else None
+                    w.append((list(lc) + [0] if lc is not None else None, salt))
+                    if per and len(salt) == 2:
+                        alone_lines.append(case(1, pw, salt))
+                        alone_meta.append((si, i))
+                known = known and x["kind"] == 1 and w[-1][0] is not None       # GenPasswd draws a fresh salt on every run
+            else:
+                w.append(([x["verdict"]], None))
+        wants.append(w)
+        exp_lines.append("0 " + " ".join("%d %s 0" % (len(h), toks(h)) for h, _ in w) if known else None)
+    oa = vf.run_impl(impl, "C02", alone_lines) if alone_lines else []
+    c.count(len(alone_lines), "session calls repeated alone")
+    alone_of = {k: (al, a) for k, al, a in zip(alone_meta, alone_lines, oa)}
+    n_kept = n_verd = 0
+    # sessions whose whole expected answer is known (nothing random in them) first: their replay decides by itself
+    for si in sorted(range(len(sess)), key=lambda k: exp_lines[k] is None):
+        (pat, cs), line, o, per = sess[si], l5[si], o5[si], parsed[si]
+        if per is None:
+            continue
+        shape = ", ".join(names[y["kind"]] for y in cs)
+
+        def rep(**kw):
+            r = {"cases": [line], "got": o, "session": pat}
+            if exp_lines[si] is not None:
+                r["expected"] = exp_lines[si]
+            else:
+                r["note"] = "the session contains GenPasswd (fresh salt on every run) or a salt libcrypt does not take: no fixed expected line; see expected_* below"
+            r.update(kw)
+            return r
+        for i, (x, (pay, mut)) in enumerate(zip(cs, per)):
+            where = "call %d of session [%s]" % (i, shape)
+            want, salt = wants[si][i]
+            if mut:
+                c.violation("call-writes-into-argument", "%s: an argument slice (the stored hash or the password) was modified by the call" % where, rep(call=i))
+            if x["kind"] in (1, 2):
+                n_kept += 1
+                if want is not None and pay != want:
+                    c.violation("kept-hash-changed", "%s: the slice the call returned, read after the later calls, holds %r; crypt(3) of its own password %r and salt %r is %r"
+                                % (where, bytes(pay), bytes(x["pw"]), bytes(salt or b""), bytes(want)), rep(call=i, expected_slice=want))
+                if (si, i) in alone_of:
+                    al, a = alone_of[(si, i)]
+                    got = "0 " + toks(pay)
+                    if a != got:
+                        c.violation("session-differs-from-single-calls", "%s: read at the end of the session the call's result is %s; the same call made alone gives %s" % (where, got, a),
+                                    dict(rep(call=i, alone_case=al, alone_answer=a), cases=[al, line]))
+                c.nontrivial(("sess-hash", pat, x["kind"], key_of(x["pw"]), tuple(pay[:2])))
+            else:
+                n_verd += 1
+                if pay != want:
+                    if x["kind"] == 4:
+                        h = cs[x["ref"]]
+                        key = "kept-hash-accepts-wrong-password" if x["verdict"] == 0 else "kept-hash-rejects-right-password"
+                        desc = ("%s: CheckPasswd(h, %r) = %s with h the slice that %s(%r) returned; expected %s"
+                                % (where, bytes(x["b"]), pay, names[h["kind"]], bytes(h["pw"]), x["verdict"]))
+                    else:
+                        key = "accepts-wrong-password" if x["verdict"] == 0 else "legacy-hash-rejected"
+                        desc = "%s: CheckPasswd(%r, %r) = %s inside a session; expected %s" % (where, bytes(x["a"]), bytes(x["b"]), pay, x["verdict"])
+                    c.violation(key, desc, rep(call=i, expected_verdict=x["verdict"]))
+                c.nontrivial(("sess-check", pat, x["kind"], x["verdict"], key_of(x["b"]), tuple(x["a"][:13])))
+    if model:
+        m5 = run_model_par(model, l5m)
+        vf.correspond(c, "sessions of Fcrypt/GenPasswd/CheckPasswd calls (results kept uncopied) vs model session", l5m, o5, m5)
+
+    # ---------------------------------------------------------------- op 6: the calls from concurrent goroutines
+    rounds = 20000 if thorough else 3000
+    conc = []            # (pattern, calls)
+
+    def c_fcrypt():
+        while True:
+            pw, s = some_pw(), [rng.choice(ALPHA), rng.choice(ALPHA)]
+            st = libcrypt(pw, s)
+            if st is not None or _lib is None:
+                return {"kind": 1, "a": pw, "b": s, "seq": (list(st) + [0]) if st is not None else None}
+
+    def c_check(right, same_as=None):
+        if same_as is not None:
+            st, pw = same_as
+        else:
+            x = c_fcrypt()
+            st, pw = x["seq"], x["a"]
+        if st is None:
+            return None
+        q = right_of(pw) if right else wrong_of(pw)
+        return {"kind": 3, "a": list(st), "b": q, "seq": [1 if right else 0], "user": (st, pw)}
+
+    def c_gen():
+        # b is not an argument of GenPasswd (the Go driver ignores it): it stands for the salt drawn, for the model, whose
+        # op 6 reports nothing of a GenPasswd answer but that the call returns
+        return {"kind": 2, "a": some_pw(allow_empty=True), "b": [65, 65], "seq": []}
+
+    for _ in range(12 * K):                                   # two logins for ONE user: right and wrong password
+        x = c_check(True)
+        if x:
+            conc.append(("one-hash-right-and-wrong", [x, c_check(False, x["user"])]))
+    for _ in range(12 * K):                                   # checks against hashes of DIFFERENT passwords
+        conc.append(("two-hashes", [c_check(rng.random() < 0.5), c_check(rng.random() < 0.5)]))
+    for _ in range(8 * K):
+        conc.append(("fcrypt-fcrypt", [c_fcrypt(), c_fcrypt()]))
+    for _ in range(8 * K):
+        conc.append(("genpasswd-and-check", [c_gen(), c_check(rng.random() < 0.5)] + ([c_gen()] if rng.random() < 0.5 else [])))
+    for _ in range(10 * K):
+        conc.append(("mixed-3-4", [rng.choice([c_fcrypt, c_gen, lambda: c_check(True), lambda: c_check(False)])() for _ in range(rng.randrange(3, 5))]))
+    conc = [(p, [x for x in cs if x is not None]) for p, cs in conc]
+    conc = [(p, cs) for p, cs in conc if len(cs) >= 2]
+    l6 = ["6|%d|" % rounds + "|".join("%d|%s|%s" % (x["kind"], toks(x["a"]), toks(x["b"])) for x in cs) for _, cs in conc]
+    o6 = vf.run_impl(impl, "C02", l6, deadline_ms=60000)
+    n_conc_calls = 0
+    for (pat, cs), line, o in zip(conc, l6, o6):
+        c.count(1, "concurrent " + pat)
+        n_conc_calls += rounds * len(cs)
+        exp = ["0"]
+        known = True
+        for x in cs:
+            if x["seq"] is None:
+                known = False
+                break
+            exp += [str(len(x["seq"]))] + [str(b) for b in x["seq"]] + ["0", "0"]
+        v = split_out(o)
+        if v is None:
+            c.violation("concurrent-crash", "%d concurrent callers (%s) do not return: status %s" % (len(cs), pat, o), {"cases": [line], "got": o})
+            continue
+        pos, bad = 0, None
+        for i, x in enumerate(cs):
+            if pos >= len(v) or pos + v[pos] + 3 > len(v):
+                bad = "concurrent answer is not one record per call"
+                break
+            n = v[pos]
+            seq, differ, stale = v[pos + 1:pos + 1 + n], v[pos + 1 + n], v[pos + 2 + n]
+            pos += n + 3
+            name = {1: "Fcrypt(%r, %r)" % (bytes(x["a"]), bytes(x["b"])), 2: "GenPasswd(%r)" % bytes(x["a"]),
+                    3: "CheckPasswd(%r, %r)" % (bytes(x["a"][:13]), bytes(x["b"]))}[x["kind"]]
+            if x["seq"] is not None and seq != x["seq"]:
+                bad = "made alone, before the goroutines start, %s answers %s, expected %s" % (name, seq, x["seq"])
+            elif differ:
+                bad = "%d of %d answers of %s, made while %d other goroutine(s) were calling too, differ from the answer it gives alone (%s)" % (differ, rounds, name, len(cs) - 1, seq)
+            elif stale:
+                bad = "the slice %s returned last, read after all goroutines have finished, no longer holds its answer (or an argument was written to)" % name
+            if bad:
+                break
+            c.nontrivial(("conc", pat, x["kind"], key_of(x["a"] if x["kind"] != 3 else x["b"]), tuple(x["b"][:2] if x["kind"] == 1 else x["a"][:13])))
+        if bad:
+            c.violation("concurrent-answer-differs", "%s: %s" % (pat, bad), {"cases": [line], "got": o, "expected": " ".join(exp) if known else None})
+    if model:
+        m6 = vf.run_model(model, l6)
+        vf.correspond(c, "concurrent Fcrypt/GenPasswd/CheckPasswd calls (every answer = the sequential one) vs model", l6, o6, m6)
+
+    # ---------------------------------------------------------------- thorough: the same cases under the race detector
+    race = "not run in the quick tier"
+    if thorough:
+        race = race_run(c, l5[:200] + ["6|%d|" % 300 + l.split("|", 2)[2] for l in l6[:200]])
+    c.sample({"op": "session", "case": l5[-1], "impl": o5[-1]})
+    c.sample({"op": "concurrent", "case": l6[0], "impl": o6[0]})
+    return {"sessions": len(sess), "kept_slices_read_at_the_end": n_kept, "verdicts_inside_sessions": n_verd,
+            "session_calls_repeated_alone": len(alone_lines), "concurrent_cases": len(conc), "rounds_per_goroutine": rounds,
+            "concurrent_calls": n_conc_calls, "race_detector": race, "GOMAXPROCS": os.cpu_count()}
+
+
+def race_run(c, lines):
+    """Build the driver with -race and run the session / concurrent cases; a report naming crypt or cmbbs is a violation."""
+    import glob, tempfile
+    exe = os.path.join(vf.BUILD, "implrun_race_C02")
+    with vf.Lock():
+        rc, out = vf.sh(["go", "build", "-race", "-tags", "verif", "-o", exe, "./cmd/implrun"], cwd=os.path.join(vf.ROOT, "go", "impl"), env=vf.GOENV, timeout=1800)
+    if rc != 0:
+        return "unavailable (go build -race failed: %s)" % out[-200:].replace("\n", " ")
+    d = tempfile.mkdtemp(prefix="c02race")
+    try:
+        res = vf.run_impl(exe, "C02", lines, deadline_ms=120000, env={"GORACE": "log_path=%s/race halt_on_error=0 exitcode=0" % d})
+        reports = ""
+        for f in sorted(glob.glob(d + "/race*")):
+            reports += open(f, errors="replace").read()
+        n = reports.count("WARNING: DATA RACE")
+        blocks = [b for b in reports.split("==================") if "DATA RACE" in b and ("go-pttbbs/crypt" in b or "go-pttbbs/cmbbs" in b)]
+        if blocks:
+            c.violation("data-race", "the race detector reports unsynchronised access to shared state inside crypt/cmbbs while two goroutines hash/check passwords",
+                        {"cases": lines[-3:], "got": blocks[0][:3000], "how": "go build -race -tags verif ./cmd/implrun; implrun C02 < cases"})
+        c.count(len(lines), "cases under the race detector")
+        return "%d cases, %d reports (%d in crypt/cmbbs)" % (len(res), n, len(blocks))
+    finally:
+        import shutil
+        shutil.rmtree(d, ignore_errors=True)
 
 
 def main():
@@ -469,6 +855,9 @@ def main():
         c.nontrivial(("chk", kind, tuple(h[:13]), key_of(pw)))
     c.sample({"op": "GenPasswd/CheckPasswd", "pw": repr(bytes(gp[10])), "hash": vf.fmt_bytes(o2[10].split()[1:14]), "kinds": dist})
 
+    # ------------------------------------------------------------------------------------------ sessions and concurrent callers
+    sess_stats = sessions(c, rng, impl, model, thorough)
+
     # ------------------------------------------------------------------------------------------ extraction cross-check inside Coq
     if model:
         pick = [l1[0], l1[1540], l1[3000], l1[len(l1) - 700], l1[2 * 256 * 3 + 4096 + 3], l4[17], l4[len(l4) - 5], l2m[0], l2m[1], l2m[7], l3[0], l3[1], l3[-1], l3[-4]]
@@ -484,11 +873,16 @@ def main():
     c.finish(rule="Fcrypt: salt byte sweeps + all alphabet salt pairs + passwords of length 0..20 over all byte values (random, with NULs, with bit 7) + byte sweeps + 7-bit salts, PRNG(seed); "
                   "every case goes to implementation, extracted model of the Go code, extracted textbook crypt(3) spec (alphabet salts), libcrypt via ctypes and perl crypt (alphabet salts); "
                   "GenPasswd: random passwords, salt read back from the hash and fed to the model; CheckPasswd: the generating password (accept), single-bit flips in the low 7 bits of the first 8 bytes (reject), "
-                  "changed bytes after the 8th / after a NUL / bit 7 (accept), libcrypt-made hashes (accept). A case is non-trivial if it has a distinct (DES key, salt) resp. (kind, hash, DES key)",
-             extra={"table_coverage": table_cov, "oracle_comparisons": {"libcrypt_ctypes": n_oracle, "perl_crypt": n_perl, "DesSpec_cases": len(l4)}},
+                  "changed bytes after the 8th / after a NUL / bit 7 (accept), libcrypt-made hashes (accept). "
+                  "Sessions (op 5): 2-6 Fcrypt/GenPasswd/CheckPasswd calls in one process, returned slices kept uncopied and read after the last call, CheckPasswd called on the very slice an earlier call returned (right and wrong password); "
+                  "predicates: every kept slice = libcrypt of its own password and salt, session answers = answers of the same calls made alone, verdicts, no argument written to. "
+                  "Concurrent (op 6): 2-4 goroutines repeating Fcrypt/GenPasswd/CheckPasswd against hashes of the same and of different passwords, every answer = the sequential one (thorough: also under go build -race). A case is non-trivial if it has a distinct (DES key, salt) resp. (kind, hash, DES key)",
+             extra={"table_coverage": table_cov, "oracle_comparisons": {"libcrypt_ctypes": n_oracle, "perl_crypt": n_perl, "DesSpec_cases": len(l4)},
+                    "sessions_and_concurrency": sess_stats},
              assumptions=["the reject clause ('rejected for any password whose first eight bytes differ in the low seven bits') is exercised by differential testing only: proving it would assert that DES under 25 salted iterations has no colliding keys on the zero block, which nobody has proved (C02_reject_partial says what is proved)",
                           "whole-function equality model-of-fcrypt = textbook crypt(3) (Model/C02_DesSpec.v) is a theorem for all passwords and alphabet salts (C02_equals_crypt3); what stays validated, by the 4-way correspondence on every case, is that the model is the Go code (Go <-> extracted model) and that the textbook specification is the crypt(3) of libcrypt / perl (extracted DesSpec <-> oracles)",
                           "libcrypt (libxcrypt's DES crypt) and perl's crypt are validation oracles, not part of any theorem",
+                          "C02_calls_independent / C02_order_independent hold of the model by construction (its functions have no state); that crypt.Fcrypt, cmbbs.GenPasswd and cmbbs.CheckPasswd are such functions - no result aliasing a shared buffer, no scratch state shared between goroutines - is validated, not proved: sessions with results kept uncopied (deterministic) and concurrent goroutines (a data race shows with high probability per case, not with certainty; the thorough tier adds the race detector)",
                           "a salt shorter than 2 bytes or with a byte >= 128 is outside the property: Go panics (con_salt has 128 entries), the model says Crash; GenPasswd masks its salt to 7 bits and stored hashes are ASCII"])
 
 
